@@ -63,6 +63,7 @@ class Meter:
         self.hang_site = None
         self._stack = []
         self._sampled = False
+        self._rec_exc = None
 
     # ------------------------------------------------------------------ monitoring callbacks
     def _line(self, code, lineno):
@@ -98,8 +99,9 @@ class Meter:
             raise BudgetExceeded("line budget %d exhausted" % self.budget)
 
     def _raise(self, code, offset, exc):
-        if isinstance(exc, RecursionError) and self.recursion is None:
-            self.recursion = recursion_site(exc.__traceback__, sys._getframe(1))
+        # (nothing is computed here: the interpreter is at its recursion limit)
+        if self._rec_exc is None and isinstance(exc, RecursionError):
+            self._rec_exc = exc
 
     def _alarm(self, signum, frame):
         self.hang_site = self.hang_site or ("wall:" + innermost_site_of_frame(frame))
@@ -115,6 +117,7 @@ class Meter:
         self.hang_site = None
         self._stack = []
         self._sampled = False
+        self._rec_exc = None
         try:
             mon.use_tool_id(TOOL, "verif-c13")
         except ValueError:
@@ -141,6 +144,10 @@ class Meter:
             signal.signal(signal.SIGALRM, old)
             mon.register_callback(TOOL, EV.LINE, None)
             mon.register_callback(TOOL, EV.RAISE, None)
+        if self._rec_exc is not None:
+            # the traceback of a swallowed exception reaches from where it was raised to where it was caught
+            self.recursion = recursion_site(self._rec_exc.__traceback__)
+            self._rec_exc = None
         return res, exc
 
 
@@ -163,7 +170,8 @@ def innermost_site(tb):
     site = "?:?"
     while tb is not None:
         c = tb.tb_frame.f_code
-        if c.co_filename.startswith(PKG):
+        # (PDFStream.__getitem__ is a one-line wrapper around a dictionary lookup: its caller names the defect)
+        if c.co_filename.startswith(PKG) and c.co_name != "__getitem__":
             site = _site(c)
         tb = tb.tb_next
     return site
